@@ -555,6 +555,54 @@ func checkC17(p *core.Program, r *core.Report) {
 	}
 	checkAddressProvenance(p, r, proc, R2)
 	checkEntryKeys(p, r, proc, fEntries, R1)
+	// only the local SKI identifies the local service: no other TXT value is compared with a field of the manager
+	{
+		nOwn, bad := 0, false
+		for _, cs := range core.ExpandSites(proc, func(f *ssa.Function) bool { return p.PkgShort(f) == "mdns" && f.Blocks != nil }, 1, func(in ssa.Instruction) bool {
+			bo, ok := in.(*ssa.BinOp)
+			return ok && (bo.Op == token.EQL || bo.Op == token.NEQ)
+		}) {
+			undo := cs.Bind()
+			bo := cs.In.(*ssa.BinOp)
+			keyOfLookup := func(v ssa.Value) (string, bool) {
+				v = core.Canon(v)
+				if ex, ok := v.(*ssa.Extract); ok {
+					v = ex.Tuple
+				}
+				l, ok := v.(*ssa.Lookup)
+				if !ok || core.Canon(l.X) != elements {
+					return "", false
+				}
+				return strConst(l.Index)
+			}
+			mgrField := func(v ssa.Value) *types.Var {
+				f, b := core.LoadedField(core.Canon(v))
+				if f != nil && b != nil && core.NamedOf(b.Type()) == mgr {
+					return f
+				}
+				return nil
+			}
+			check := func(a, b ssa.Value) {
+				k, ok := keyOfLookup(a)
+				f := mgrField(b)
+				if !ok || f == nil {
+					return
+				}
+				nOwn++
+				if k == "ski" && f == fSki {
+					return
+				}
+				bad = true
+				r.Fail(R1, "own-service test compares TXT '"+k+"' with MdnsManager."+f.Name(), p.Pos(bo.Pos()), "a record is compared with a field of the local manager other than the SKI: a remote service that merely shares that value (e.g. the same default SHIP id) is dropped from the visible services although its SKI is not the local one")
+			}
+			check(bo.X, bo.Y)
+			check(bo.Y, bo.X)
+			undo()
+		}
+		if !bad {
+			r.OK(R1, "own-service test uses the SKI only", p.Pos(proc.Pos()), fmt.Sprintf("%d comparison(s) of TXT values with manager fields, all on the SKI", nOwn))
+		}
+	}
 	// every address of an event is considered: the loops over the event's address list have no early exit
 	var addrParam ssa.Value
 	for _, pa := range proc.Params {
@@ -718,7 +766,7 @@ func checkSnapshotCopy(p *core.Program, r *core.Report, R3 string, sites []core.
 						}
 					}
 					if mu, ok := in.(*ssa.MapUpdate); ok {
-						if _, isAlloc := core.Canon(mu.Value).(*ssa.Alloc); !isAlloc {
+						if !freshEntry(p, mu.Value, 2) {
 							alias = true
 						}
 					}
@@ -759,6 +807,7 @@ func resolverCallback(p *core.Program) *ssa.Function {
 // checkAddressProvenance (C17.R2): every address that enters an entry - merged into a known one or stored
 // with a new one - is taken from the list the link-local filter built, never from the event's raw list.
 func checkAddressProvenance(p *core.Program, r *core.Report, proc *ssa.Function, R2 string) {
+	ensureCallSites(p)
 	isIPSlice := func(t types.Type) bool {
 		st, ok := t.Underlying().(*types.Slice)
 		return ok && core.TypeIs(st.Elem(), "net", "IP")
@@ -835,6 +884,19 @@ func checkAddressProvenance(p *core.Program, r *core.Report, proc *ssa.Function,
 			}
 			if x.Parent() == proc || core.NestedIn(x.Parent(), proc) {
 				out["raw"] = x.Pos()
+			} else if sites := gCallSites[x.Parent()]; len(sites) > 0 {
+				// a helper's parameter: what its callers pass
+				idx := -1
+				for i, q := range x.Parent().Params {
+					if q == x {
+						idx = i
+					}
+				}
+				for _, cs := range sites {
+					if c := core.Common(cs); c != nil && idx >= 0 && idx < len(c.Args) {
+						roots(c.Args[idx], nil, depth-1, out, seen)
+					}
+				}
 			} else {
 				out["unknown: parameter "+x.Name()+" of "+x.Parent().Name()] = x.Pos()
 			}
@@ -1044,4 +1106,31 @@ func checkEntryKeys(p *core.Program, r *core.Report, proc *ssa.Function, fEntrie
 		sort.Strings(parts)
 		r.Fail(R1, key, p.Pos(proc.Pos()), "the map is accessed under different key values within one event ("+strings.Join(parts, " | ")+"): an entry stored under a re-formatted SKI is not found by the remove or by the next address update of the same service, so it stays visible after its removal and loses earlier addresses")
 	}
+}
+
+// freshEntry: v is an entry allocated for this copy - an allocation in the function itself, or the result of a
+// package-local helper every return of which is such an allocation.
+func freshEntry(p *core.Program, v ssa.Value, depth int) bool {
+	v = core.Canon(v)
+	if _, isAlloc := v.(*ssa.Alloc); isAlloc {
+		return true
+	}
+	c, ok := v.(*ssa.Call)
+	if !ok || depth == 0 {
+		return false
+	}
+	t := c.Call.StaticCallee()
+	if t == nil || t.Blocks == nil || p.PkgShort(t) != "mdns" {
+		return false
+	}
+	okAll, any := true, false
+	core.EachInstr(t, func(in ssa.Instruction) {
+		if ret, isRet := in.(*ssa.Return); isRet && len(ret.Results) == 1 && ret.Block() != t.Recover {
+			any = true
+			if !freshEntry(p, core.ResultOf(ret, 0), depth-1) {
+				okAll = false
+			}
+		}
+	})
+	return okAll && any
 }
